@@ -71,9 +71,15 @@ class Delegation:
         self.format = aformat
         self.delegation_id = delegation_id
         self.delegation_details = None
-        self.pool_id = pool_id
-        if aformat != DelegationFormat.SinglePool:
+        if aformat == DelegationFormat.SinglePool:
+            # a single-pool delegation has no pool name of its own: it is encoded as SINGLE_POOL_NAME
+            self.pool_id = None
+        else:
             assert pool_id is not None
+            if aformat == DelegationFormat.PoolDefinition and \
+                    pool_id == ABCPropertyGraphConstants.SINGLE_POOL_NAME:
+                raise DelegationException(msg=f'Pool name {pool_id} is reserved for single-pool delegations')
+            self.pool_id = pool_id
 
     def get_delegation_type(self) -> DelegationType:
         return self.type
